@@ -29,6 +29,15 @@ def setLines (path : Bytes) (name : String) (set : Option (List Bytes)) : List S
     ("B:" ++ Bytes.toHex path ++ ":" ++ hexS name) ::
       ks.map (fun k => "K:" ++ Bytes.toHex (path ++ slash ++ Bytes.ofString name) ++ ":05" ++ Bytes.toHex k ++ ":")
 
+def extLines (p : Bytes) (name : String) : Option Ext → List String
+  | none => []
+  | some x =>
+    let q := p ++ slash ++ Bytes.ofString name
+    [ "B:" ++ Bytes.toHex p ++ ":" ++ hexS name,
+      "K:" ++ Bytes.toHex q ++ ":" ++ hexS "tag" ++ ":" ++ typedHex x.tag,
+      "K:" ++ Bytes.toHex q ++ ":" ++ hexS "mentor" ++ ":" ++ typedHex x.m,
+      "K:" ++ Bytes.toHex q ++ ":" ++ hexS "guard" ++ ":" ++ typedHex x.g ]
+
 def fineLines (s : St) : List String :=
   (s.as.keys.flatMap fun x =>
     match s.as.lookup x with
@@ -40,12 +49,11 @@ def fineLines (s : St) : List String :=
         "K:" ++ Bytes.toHex p ++ ":" ++ hexS "boss" ++ ":" ++ typedHex e.boss,
         "K:" ++ Bytes.toHex p ++ ":" ++ hexS "dep" ++ ":" ++ typedHex e.dep ]
       ++ setLines p "minions" (s.minions.lookup x)
-      ++ (match e.ext with
-          | none => []
-          | some t => [ "B:" ++ Bytes.toHex p ++ ":" ++ hexS "ext1",
-                        "K:" ++ Bytes.toHex (p ++ slash ++ Bytes.ofString "ext1") ++ ":" ++ hexS "tag" ++ ":" ++ typedHex t ])) ++
+      ++ extLines p "ext1" e.ext1 ++ extLines p "ext2" e.ext2) ++
   (s.bs.keys.flatMap fun b =>
-    ("B:" ++ Bytes.toHex pathB ++ ":" ++ Bytes.toHex b) :: setLines (pathB ++ slash ++ b) "things" (s.things.lookup b))
+    ("B:" ++ Bytes.toHex pathB ++ ":" ++ Bytes.toHex b) :: (setLines (pathB ++ slash ++ b) "things" (s.things.lookup b)
+      ++ setLines (pathB ++ slash ++ b) "mentees1" (s.mentees1.lookup b)
+      ++ setLines (pathB ++ slash ++ b) "mentees2" (s.mentees2.lookup b)))
 
 def fineText (s : St) : String := "\n".intercalate (sortS (fineLines s))
 
@@ -55,14 +63,19 @@ def fvWire : FV → String
   | none => "~"
   | some v => Bytes.toWire v
 
+def extWire : Option Ext → String
+  | none => "!"
+  | some x => fvWire x.tag ++ "/" ++ fvWire x.m ++ "/" ++ fvWire x.g
+
 def coarseLines (s : St) : List String :=
   let aIds := sortB s.as.keys
   let bIds := sortB s.bs.keys
   ["SA:" ++ wireList aIds, "SB:" ++ wireList bIds] ++
   (aIds.filterMap fun x => (s.as.lookup x).map fun e =>
     "A:" ++ Bytes.toWire x ++ ":" ++ fvWire e.owner ++ ":" ++ fvWire e.boss ++ ":" ++ fvWire e.dep ++ ":" ++
-      wireList ((s.minions.lookup x).getD []) ++ ":" ++ (match e.ext with | none => "!" | some t => fvWire t)) ++
-  (bIds.map fun b => "B:" ++ Bytes.toWire b ++ ":" ++ wireList ((s.things.lookup b).getD []))
+      wireList ((s.minions.lookup x).getD []) ++ ":" ++ extWire e.ext1 ++ ":" ++ extWire e.ext2) ++
+  (bIds.map fun b => "B:" ++ Bytes.toWire b ++ ":" ++ wireList ((s.things.lookup b).getD []) ++ ":" ++
+    wireList ((s.mentees1.lookup b).getD []) ++ ":" ++ wireList ((s.mentees2.lookup b).getD []))
 
 def coarseText (s : St) : String := "\n".intercalate (coarseLines s)
 
